@@ -635,6 +635,9 @@ class StrAI:
         if isinstance(f, ast.Attribute):
             recv = self.ev(f.value, env)
             m = f.attr
+            if isinstance(recv, tuple) and len(recv) == 2 and recv[0] == "global" and isinstance(self.g.get(recv[1]), tuple) and self.g[recv[1]][:1] == ("regex",):
+                # a module-level compiled pattern: PAT.search(s) is re.search(pattern, s)
+                return self.regex(m, [AStr.lit(self.g[recv[1]][1])] + args)
             if isinstance(recv, AMatch):
                 if m == "group":
                     idx = args[0] if args else 0
@@ -674,6 +677,22 @@ class StrAI:
                     if recv.is_lit():
                         return recv.text().isdigit()
                     return all(s[0] == "dig" or (s[0] == "lit" and s[1].isdigit()) for s in recv.segs)
+                if m in ("find", "rfind", "index", "rindex") and len(args) == 1 and isinstance(args[0], AStr) and args[0].is_lit() and len(args[0].text()) == 1 and not args[0].text().isdigit():
+                    # position of a non-digit character: every piece of the shape has a known length (digit groups have 2 or 3 digits in the case at hand)
+                    ch, pos, hits = args[0].text(), 0, []
+                    for sg in recv.norm().segs:
+                        if sg[0] == "lit":
+                            hits.extend(pos + i for i, c_ in enumerate(sg[1]) if c_ == ch)
+                            pos += len(sg[1])
+                        elif sg[0] == "dig":
+                            pos += sg[2]
+                        else:
+                            raise Undecided("position in a cut shape")
+                    if not hits:
+                        if m in ("index", "rindex"):
+                            raise AbstractRaise("ValueError", "substring not found")
+                        return -1
+                    return hits[0] if m in ("find", "index") else hits[-1]
                 if m == "partition" or m == "rpartition":
                     if not args or not (isinstance(args[0], AStr) and args[0].is_lit() and len(args[0].text()) == 1):
                         raise Undecided("partition separator")
